@@ -188,7 +188,11 @@ BODIES = ["", "x", "foo bar", "\tindented", "a\tb", "-- sql comment", "++ inc", 
           "Binary files a and b differ", "rename from x", "new file mode 100644", "index 0000..1111",
           "<<<<<<< HEAD", "=======", ">>>>>>> other", "Subproject commit abc", "let x = 1;", "}", "{", "  return 0;",
           "--- a/old", "+++ b/new", "old mode 100644", "Submodule x 1..2:", "Only in a: b", "# comment",
-          "a" * 70, "😀 emoji", "é combining", "​ zero width"]
+          "a" * 70, "😀 emoji", "é combining", "​ zero width",
+          # text that starts with a character extending the previous grapheme cluster: with the marker column in front,
+          # the first cluster of the line is marker + this character (prefix removal must still cut after the marker)
+          "\u0301 leading combining acute", "\u200dleading zwj", "\ufe0f leading vs16", "\U0001f3fd leading skin tone",
+          "\u093e leading spacing mark"]
 
 PATHS = ["src/main.rs", "a b/with space.txt", "Makefile", "dir/ünïcode.py", "x", "a/b/c/d.e", "w/o/i.c",
          "日本/ファイル.txt", "foo-bar_baz.1.txt", "i/x.rs"]
